@@ -14,6 +14,9 @@ typedef struct {
 #define C20_FLAG_BOX_C 2     /* provide initialize_box_C */
 #define C20_FLAG_BOX_D 4     /* provide initialize_box_D */
 #define C20_FLAG_L1 8        /* provide initialize_l1_reg (one nonzero factor) */
+/* OCP plug-in (c20_ocp.c): flags select which of the two output-mapping members are left NULL */
+#define C20O_FLAG_NO_H 1     /* omit eval_h */
+#define C20O_FLAG_NO_H_N 2   /* omit eval_h_N */
 
 /* optional members of alpaqa_problem_functions_t, in the order of the struct */
 enum {
